@@ -131,6 +131,13 @@ class Context:
     should_suppress_undefined_names: bool = field(default=False, init=False)
     """While this is True, no errors are shown for undefined names."""
     _being_evaluated: set[int] = field(default_factory=set, init=False)
+    in_string_annotation: bool = field(default=False, init=False)
+    """While this is True, the AST being evaluated was parsed from a string, so its
+    line and column numbers are relative to that string, not to the file."""
+
+    def evaluating_string_annotation(self) -> AbstractContextManager[None]:
+        """Temporarily note that nodes come from a parsed string annotation."""
+        return qcore.override(self, "in_string_annotation", True)
 
     def suppress_undefined_names(self) -> AbstractContextManager[None]:
         """Temporarily suppress errors about undefined names."""
@@ -670,9 +677,10 @@ def _eval_forward_ref(
         ctx.show_error(f"Syntax error in type annotation: {val}")
         return AnyValue(AnySource.error)
     else:
-        return _type_from_ast(
-            tree.body, ctx, is_typeddict=is_typeddict, allow_unpack=allow_unpack
-        )
+        with ctx.evaluating_string_annotation():
+            return _type_from_ast(
+                tree.body, ctx, is_typeddict=is_typeddict, allow_unpack=allow_unpack
+            )
 
 
 def _type_from_value(
@@ -930,7 +938,8 @@ class _DefaultContext(Context):
         error_code: Error = ErrorCode.invalid_annotation,
         node: Optional[ast.AST] = None,
     ) -> None:
-        if node is None:
+        if node is None or (self.in_string_annotation and self.node is not None):
+            # positions inside a parsed string annotation are not positions in the file
             node = self.node
         if self.visitor is not None and node is not None:
             self.visitor.show_error(node, message, error_code)
